@@ -298,6 +298,12 @@ class Emitter:
         if kind == "EnumConstantDecl":
             et = (rd.get("type") or {}).get("qualType", "")
             cn = ident(et.split("::")[-1]) + "__" + name if et and not et.startswith("(") else name
+            if et in self.cfg.get("enum_rename", {}):
+                # "enum_rename": {qualified enum type: C prefix} keeps apart two enums with the same last name
+                cn = self.cfg["enum_rename"][et] + "__" + name
+            elif cn in self.enum_consts and self.enum_consts[cn][0] != et:
+                raise Unsupported("enum constants %s::%s and %s::%s get the same C name %s (add enum_rename)" %
+                                  (self.enum_consts[cn][0], name, et, name, cn))
             self.enum_consts[cn] = (et, name)
             return cn
         if kind in ("ParmVarDecl", "VarDecl", "BindingDecl"):
